@@ -77,16 +77,17 @@ def unit_kolmogorov(u, rec):
     thin = b.get("thin", 1) * (5 if D == 3 else 1)
     if thin > 1:  # deterministic thinning of the product (stated in bounds): every value of every dimension still occurs with every order
         combos = [c for i, c in enumerate(combos) if i % thin == 0]
-    for (k, gamma, (nu, drag), order, dt) in combos:
+    for ci, (k, gamma, (nu, drag), order, dt) in enumerate(combos):
         if k >= (N - 1) // 2:
             continue
         kap = 2 * np.pi * k / L
+        bconv = (1.0, 2.0, -1.5)[ci % 3]  # the convection scale must not touch the forcing (the laminar state has no convection)
         if cls == "KolmogorovFlowVorticity":
-            st = ex.stepper.KolmogorovFlowVorticity(2, L, N, dt, diffusivity=nu, drag=drag, injection_mode=k, injection_scale=gamma, order=order)
+            st = ex.stepper.KolmogorovFlowVorticity(2, L, N, dt, diffusivity=nu, convection_scale=bconv, drag=drag, injection_mode=k, injection_scale=gamma, order=order)
             sigma = drag - nu * kap**2
         elif cls == "GeneralVorticityConvectionStepper":
-            st = ex.stepper.generic.GeneralVorticityConvectionStepper(2, L, N, dt, linear_coefficients=(drag / 2, 0.0, nu), injection_mode=k,
-                                                                     injection_scale=gamma, order=order)
+            st = ex.stepper.generic.GeneralVorticityConvectionStepper(2, L, N, dt, vorticity_convection_scale=bconv, linear_coefficients=(drag / 2, 0.0, nu),
+                                                                     injection_mode=k, injection_scale=gamma, order=order)
             sigma = drag - nu * kap**2  # the zeroth-order coefficient is summed over the D=2 axes
         else:
             st = ex.stepper.KolmogorovFlowVelocity(3, L, N, dt, diffusivity=nu, drag=drag, injection_mode=k, injection_scale=gamma, order=order)
@@ -96,6 +97,7 @@ def unit_kolmogorov(u, rec):
         else:
             amp_f, shape_f, phase_name = gamma, np.sin(kap * X[1]), "sin"
         rec.dim("mode", k)
+        rec.dim("convection_scale", bconv)
         rec.dim("gamma", gamma)
         rec.dim("order", order)
         rec.dim("dt", dt)
@@ -109,9 +111,9 @@ def unit_kolmogorov(u, rec):
                 return None
             return key + 1, st(iv), key + 1
 
-        def inv(key, iv, mv, trace, k=k, gamma=gamma, nu=nu, drag=drag, order=order, dt=dt):
+        def inv(key, iv, mv, trace, k=k, gamma=gamma, nu=nu, drag=drag, order=order, dt=dt, bconv=bconv):
             f = np.asarray(iv)
-            info = dict(cls=cls, N=N, L=L, mode=k, gamma=gamma, nu=nu, drag=drag, order=order, dt=dt, steps=key)
+            info = dict(cls=cls, N=N, L=L, mode=k, gamma=gamma, nu=nu, drag=drag, order=order, dt=dt, steps=key, convection_scale=bconv)
             if key == 0:
                 return
             A = amp_f * growth(key)
